@@ -36,14 +36,17 @@ META = {
                 'shared access that is not instrumented would be executed atomically with its neighbour',
                 'CPython: one builtin-dict operation with int/str keys is atomic under the GIL'],
     'modelled': ['preemption inside one C-level dict operation (not expressible: actions are whole dict operations)',
-                 'garbage collection of weakly referenced instances, in particular triggered from another thread: every '
-                 'object that enters the cache stays referenced by its thread or by the environment for the whole run, so '
-                 'the dead-weakref branches of get()/cull() are neither modelled nor exercised',
+                 'weak references follow CPython reference counting (an instance dies with its last strong reference; '
+                 'SQLObject instances are in no reference cycle): threads keep every instance they obtained, the environment '
+                 'pins a chosen subset of the initially cached ones, so the dead-weakref branches of get()/cull() ARE modelled '
+                 'and exercised; an interpreter with delayed / cyclic collection, where an unreferenced instance may die '
+                 'later and at any point of another thread, is not modelled',
                  'OS-level starvation / fairness (progress is: some thread is always enabled)',
-                 'doCache=False factories; CacheFactory.clear(); tryGet(); per-instance _SO_writeLock (never taken '
+                 'CacheFactory.clear(); tryGet(); per-instance _SO_writeLock (never taken '
                  'while the cache lock is held, so it cannot take part in a lock cycle with it)',
                  'threading.Lock, sqlite3 (executed, not verified)'],
     'assumptions': ['SafeProgs excludes create and expireAll in the same configuration even when they are in one thread sequentially (safe, but outside the theorem; covered by the replay only)',
+                    'with doCache=False the map clauses are proved for programs without create only (created() then writes expiredCache lock-free); creates in that mode are covered by the replay',
                     'cullFraction >= 1 (the configuration constant is 2; 0 makes range() raise ValueError)',
                     'the attribute load `self.cache` and the dict operation on it form one action (true for CPython 3.12: '
                     'no eval-breaker check between LOAD_ATTR and the subscript)'],
@@ -406,8 +409,8 @@ def pin_objs(init):
 
 
 def model_line(init, progs, sched):
-    return ('c=%d freq=%d frac=%d cc=%d off=%d strong=%s weak=%s db=%s fresh=%d pins=%s progs=%s sched=%s'
-            % (1 if init['caches'] else 0, init['freq'], init['frac'], init['cc'], init['off'],
+    return ('dc=%d c=%d freq=%d frac=%d cc=%d off=%d strong=%s weak=%s db=%s fresh=%d pins=%s progs=%s sched=%s'
+            % (1 if init.get('dc', True) else 0, 1 if init['caches'] else 0, init['freq'], init['frac'], init['cc'], init['off'],
                fmt_map([(i, k) for k, i in enumerate(init['strong'])]),
                fmt_map([(i, len(init['strong']) + k) for k, i in enumerate(init['weak'])]),
                ','.join(map(str, init['db'])) or '-', len(init['strong']) + len(init['weak']),
@@ -426,7 +429,8 @@ def run_real(init, progs, sched):
     cache_mod.CacheFactory = IFactory
     old_cache = conn.cache
     try:
-        cs = cache_mod.CacheSet(cache=True, cullFrequency=init['freq'], cullFraction=init['frac'])
+        dc = bool(init.get('dc', True))
+        cs = cache_mod.CacheSet(cache=dc, cullFrequency=init['freq'], cullFraction=init['frac'])
         cs.caches = ICaches(s)
         conn.cache = cs
         # rows (uninstrumented: the main thread is not a managed thread)
@@ -459,11 +463,13 @@ def run_real(init, progs, sched):
                 conn.cache.expire(op[1], cls)
                 return ('unit',)
             if k == 'A':
+                if not dc:
+                    s.point('ea.entry')      # doCache=False: expireAll touches nothing shared; mark the operation
                 conn.cache.weakrefAll(cls)
                 return ('unit',)
             if k == 'C':
                 s.point('cull.entry')
-                if dict.__contains__(cs.caches, cls.__name__):
+                if dc and dict.__contains__(cs.caches, cls.__name__):   # cull() is never reached with doCache=False
                     dict.__getitem__(cs.caches, cls.__name__).cull()
                 return ('unit',)
             raise ValueError(op)
@@ -582,7 +588,11 @@ CULLY = dict(caches=True, strong=[1, 2, 4], weak=[3], db=[1, 2, 3, 4], freq=0, f
 # instance dies the moment it leaves `cache` (expireAll's swap, cull, expire)
 WARMU = dict(WARM, pins=[1])
 CULLYU = dict(CULLY, pins=[4])
-INITS = (('warm', WARM), ('cold', COLD), ('cully', CULLY), ('warmu', WARMU))
+# doCache=False (connection created with cache=False): only expiredCache is used; row 1's instance is referenced by
+# the environment, row 3's weak reference is dead
+NOCACHE = dict(dc=False, caches=True, strong=[], weak=[1, 3], pins=[1], db=[1, 2, 3, 4], freq=100, frac=2, cc=0, off=0)
+NOCACHE_COLD = dict(dc=False, caches=False, strong=[], weak=[], db=[1, 2, 3, 4], freq=100, frac=2, cc=0, off=0)
+INITS = (('warm', WARM), ('cold', COLD), ('cully', CULLY), ('warmu', WARMU), ('nocache', NOCACHE))
 
 
 def init_tag(init):
@@ -590,8 +600,8 @@ def init_tag(init):
     for name, i in INITS:
         if init == i:
             return name
-    return 'c%d.s%s.w%s.d%s.f%d.r%d.n%d.o%d.p%s' % (
-        1 if init['caches'] else 0, '_'.join(map(str, init['strong'])) or '-', '_'.join(map(str, init['weak'])) or '-',
+    return '%sc%d.s%s.w%s.d%s.f%d.r%d.n%d.o%d.p%s' % (
+        '' if init.get('dc', True) else 'nc.', 1 if init['caches'] else 0, '_'.join(map(str, init['strong'])) or '-', '_'.join(map(str, init['weak'])) or '-',
         '_'.join(map(str, init['db'])) or '-', init['freq'], init['frac'], init['cc'], init['off'],
         '_'.join(map(str, pinned_ids(init))) or '-')
 
@@ -787,6 +797,8 @@ def op_kind(init, op, created):
         i = op[1]
         if i in init['strong']:
             return 'g-hit'
+        if not init.get('dc', True) and i in init['weak'] and i in pinned_ids(init):
+            return 'g-nchit'
         if i in init['weak']:
             return 'g-weak' if i in pinned_ids(init) else 'g-dead'
         if i in created:
@@ -817,7 +829,7 @@ def load_corpus():
 
 def random_case(rng):
     """3 threads, 1-3 ops each; creates use globally fresh ids; sometimes another thread gets a created id"""
-    init = rng.choice([WARM, COLD, CULLY, WARMU, CULLYU])
+    init = rng.choice([WARM, COLD, CULLY, WARMU, CULLYU, NOCACHE, NOCACHE_COLD])
     if init['caches'] and rng.random() < 0.5:
         init = dict(init, pins=[i for i in cached_ids(init) if rng.random() < 0.5])
     fresh = itertools.chain([7, 8], itertools.count(10))     # 9 is the row that never exists
@@ -941,6 +953,8 @@ def run(ctx):
                     continue
                 if tag == 'warmu' and not thorough and not ({op_a, op_b} & {('A',), ('C',), ('g', 3), ('x', 1)}):
                     continue          # the unreferenced instances only matter to the ops that move / probe them
+                if tag == 'nocache' and (('C',) in (op_a, op_b)):
+                    continue          # cull() is unreachable with doCache=False
                 progs = [[op_a], [op_b]]
                 if op_a[0] == 'c' and op_b[0] == 'c':
                     progs = [[op_a], [('c', 8)]]          # two creates never share an id
@@ -969,16 +983,18 @@ def replay(case):
 
 
 META['level_text'] = (
-    'Lean theorems over the interleaving model Conc (atomic action = one shared access), for EVERY schedule (List Tid), '
-    'any number of threads, any programs over get/create/expire/expireAll/cull, any cull parameters. FULL: C09_conc_inv '
-    '(lock held exactly by the thread between a miss and finishPut / inside expire, expireAll, cull; cache keys unique; '
-    'every key the holder is about to read/del is present, so no KeyError and no release of a free lock), '
+    'Lean theorems over the interleaving model Conc (atomic action = one shared access; both doCache modes; weak '
+    'references die with the last strong reference), for EVERY schedule (List Tid), any number of threads, any programs '
+    'over get/create/expire/expireAll/cull, any cull parameters, any set of instances pinned by the environment. FULL: '
+    'C09_conc_inv (lock held exactly by the thread between a miss and finishPut / inside expire, expireAll, cull; dict keys '
+    'unique; every key the holder is about to read/del is present, so no KeyError and no release of a free lock), '
     'C09_lock_free_at_quiescence, C09_progress (no deadlock), C09_cullcount_benign. PARTIAL under SafeProgs = no create '
-    'anywhere, OR (no expireAll anywhere AND created ids fresh: named by no other thread, created once, not yet a row) '
-    '- decidable on a program list (SafeL, C09_safe_of_list): C09_one_object_per_id, C09_same_object, '
-    'C09_same_object_as_initial, C09_referenced_reachable, C09_no_exception_but_notfound, with per-key steps of the '
-    'expireAll iteration and of cull (create vs cull is proved safe). FALSE-witnesses (decide on concrete schedules, '
-    'replayed on the real cache.py every run): C09_*_full_FALSE (three) and tightness of the hypothesis: '
+    'anywhere (either mode), OR (doCache=True AND no expireAll anywhere AND created ids fresh: named by no other thread, '
+    'created once, not yet a row) - decidable on a program list (SafeL, C09_safe_of_list): C09_one_object_per_id, '
+    'C09_same_object, C09_same_object_as_initial, C09_referenced_reachable (thread results and pinned instances; '
+    'unreferenced ones may die and their dead weak references are dropped), C09_no_exception_but_notfound, with per-key '
+    'steps of the expireAll iteration and of cull (create vs cull is proved safe). FALSE-witnesses (decide on concrete '
+    'schedules, replayed on the real cache.py every run): C09_*_full_FALSE (three) and tightness of the hypothesis: '
     'C09_referenced_reachable_needs_noExpireAll_FALSE, C09_no_exception_needs_noExpireAll_FALSE, '
     'C09_same_object_needs_fresh_FALSE, C09_no_exception_needs_new_row_FALSE. The model is tied to the code by running '
     'the same schedules on real threads (outcomes, final maps/lock, step-exact access trace).')
